@@ -22,7 +22,7 @@ func init() {
 			"(README convention, minus static/construction-only fields) happens with that lock held on every call path from every entry point, including writes through slice/map " +
 			"values copied out of shared state (origin classes); LOCK-5 no network/sleep call while a server lock is held; KEYSET the three id-keyed maps are inserted into and deleted " +
 			"from together; LOCK-6 a pointer taken from a guarded map is dereferenced only if the key was validated in the same critical section (lock operations invalidate earlier facts). " +
-			"NOT decided: that the final state equals the sequential result (linearizability is a claim about histories; these rules establish its precondition: every shared access is " +
+			"LOCK-7 a guarded write is addressed (index, map key) only by values read in its own critical section - a value loaded from guarded state in an earlier section must be re-read (what an effectful call returns counts as new data); LOCK-8 a function that takes a lock does not return a slice, map or pointer into the storage that lock protects (it hands out a copy). NOT decided: that the final state equals the sequential result (linearizability is a claim about histories; these rules establish its precondition: every shared access is " +
 			"inside one critical section and multi-section jobs re-validate), races inside dependencies, scheduler behaviour.",
 		Assumptions: baseAssumptions,
 		Run:         runC13,
@@ -85,11 +85,11 @@ func runC13(c *an.Ctx) {
 	recovering := p.SyncReach(httpRoots...)
 	c.Count("ROOTS-http", nRoots["http"])
 	c.Count("ROOTS-launch", nRoots["launch"])
-	c.Floor("ROOTS-http", 9)
-	c.Floor("ROOTS-launch", 8)
+	c.Floor("ROOTS-http", 6)
+	c.Floor("ROOTS-launch", 4)
 
 	lockBalance(c, scope, recovering, "C13")
-	c.Floor("LOCK-1", 15)
+	c.Floor("LOCK-1", 8)
 
 	// LOCK-3 order
 	edges := p.LockOrderEdges(p.SrcFuncs())
@@ -109,7 +109,7 @@ func runC13(c *an.Ctx) {
 		},
 	}
 	guardedBy(c, listSpec, scope, construction)
-	c.Floor("LOCK-4", 60)
+	c.Floor("LOCK-4", 30)
 	var ex []string
 	for f, r := range exemptions {
 		ex = append(ex, f+": "+r)
